@@ -29,9 +29,9 @@ def budget(tier):
 
 
 WORLD = dict(offices=["G", "S", "H"], unit_types=["precinct", "precinct", "county"], n_states=(1, 3), n_counties=(2, 6),
-             n_units=(2, 7), zero_baseline_frac=0.06)
+             n_units=(2, 7), zero_baseline_frac=0.06, odd_unit_frac=0.04, prorated_p=0.15)
 PROFILE = dict(estimators=["nonparametric", "nonparametric", "gaussian", "bootstrap"], B=(2, 10), always_unit=True,
-               thresholds=[100, 90, 60, 30, 100], blocklist_p=0.5, outlier_models_p=0.15,
+               thresholds=[100, 90, 60, 30, 100], blocklist_p=0.5, outlier_models_p=0.3,
                tf_limits=[(0.5, 2.0), (0.5, 2.0), (0.7, 1.5), (0.2, 5.0), (0.9, 1.1)])
 FEED = dict(p_loss=0.04, n_foreign=(0, 3), max_polls=3, poll_every=(40.0, 140.0), start_polls_after=150.0,
             surge_frac=0.05, boundary_frac=0.2, versions=(1, 4))
@@ -75,9 +75,18 @@ class Checker(C.BaseChecker):
         rep_ids, non_ids = rep["geographic_unit_fips"].tolist(), non["geographic_unit_fips"].tolist()
         unx_rows = {r["geographic_unit_fips"]: r for r in unx.to_dict("records")}
         flagged = {f for f, r in unx_rows.items() if isinstance(r["unit_category"], str) and r["unit_category"].endswith(" modeled")}
-        om = p["model_parameters"].get("fit_turnout_outlier_model", True) or p["model_parameters"].get("fit_margin_outlier_model", True)
-        if flagged and not om:
-            out.append(self.v("outlier_flag_without_model", f"units flagged by an outlier model although none is enabled: {sorted(flagged)[:3]}"))
+        om_t = p["model_parameters"].get("fit_turnout_outlier_model", True)
+        om_m = p["model_parameters"].get("fit_margin_outlier_model", True) and "margin" in p["estimands"]
+        for f in sorted(flagged):
+            cat = unx_rows[f]["unit_category"]
+            which = "turnout" if "turnout factor modeled" in cat else "margin"
+            if (which == "turnout" and not om_t) or (which == "margin" and not om_m):
+                out.append(self.v("outlier_flag_without_model", f"unit {f} carries category {cat!r} although the {which} outlier model is not enabled "
+                                                                  f"(fit_turnout_outlier_model={om_t}, fit_margin_outlier_model={p['model_parameters'].get('fit_margin_outlier_model', True)}, estimands {p['estimands']})",
+                                  model=which))
+                break
+        if om_t != bool(p["model_parameters"].get("fit_margin_outlier_model", True)):
+            st.probes["outlier_switches_differ"] += 1
         for f in flagged:
             if f not in units or not units[f]["candidate"]:
                 out.append(self.v("outlier_flag_on_ineligible", f"unit {f} flagged by an outlier model but is not reporting+expected"))
